@@ -86,6 +86,12 @@ func scenCCH(s *sched.Sim, cfg Config, res *Result) {
 	add := func(label string, r clientReq) { pool = append(pool, cchReq{label, r}) }
 	base := gql.GenOp(s.T, w, w.Union, ast.Query, of, 4, 16)
 	add("A", clientReq{Query: base.Text, Variables: base.Vars, OperationName: base.OpName})
+	if txt, ok := gql.WithHelperIDs(w.Union, w, base); ok {
+		// the same operation with the ids the planner adds for itself, sent by a client: another
+		// operation, which wants to see those ids
+		add("A-asking-for-the-helper-ids", clientReq{Query: txt, Variables: base.Vars, OperationName: base.OpName})
+		res.Probe("cch.operation-equal-to-sanitized-form-of-another")
+	}
 	if len(base.Vars) > 0 {
 		add("A-other-values", clientReq{Query: base.Text, Variables: perturb(base.Vars), OperationName: base.OpName})
 	}
